@@ -432,9 +432,26 @@ def dispatcher(ctx):
         ctx.ob(len(hs) == 1 and handler_covers(cfg, hs[0], 'Exception') and
                all(k.startswith('raise-new') for k in handler_outcomes(cfg, hs[0])), u,
                'a predicate that raises rejects the target with a MatchError')
-        ctx.ob(cn.kind == 'test', u, 'the predicate\'s truth value decides')
-        last = cal.body[-1]
-        ctx.ob(isinstance(last, ast.Raise), u, 'a falsy predicate result rejects the target')
+        # the test on the predicate's result: the call itself, or a local holding it / its bool()
+        tnode, pol = None, None
+        if cn.kind == 'test':
+            tnode, pol = cn, polarity(cn.ast, norm(cfs[0]))
+        elif cn.kind == 'stmt' and isinstance(cn.ast, ast.Assign) and is_name(cn.ast.targets[0]) \
+                and (cn.ast.value is cfs[0] or matches(cn.ast.value, 'bool(%s)' % norm(cfs[0]))):
+            v = cn.ast.targets[0].id
+            for t in cfg.nodes:
+                if t.kind == 'test' and polarity(t.ast, v) and cfg.dominates(cn, t):
+                    tnode, pol = t, polarity(t.ast, v)
+        ctx.ob(tnode is not None and pol is not None, u, 'the predicate\'s truth value decides')
+        okf = False
+        if tnode is not None and pol:
+            other = 'false' if pol == 'true' else 'true'
+            rets = {x for x in cfg.nodes if x.kind == 'stmt' and isinstance(x.ast, ast.Return)}
+            acc = [x for x in rets if is_name(x.ast.value, target)
+                   and cfg.find_path(tnode, {x}, labels=lambda l: l != 'exc', start_labels=lambda l, y=pol: l == y) is not None]
+            rej = cfg.find_path(tnode, rets, labels=lambda l: l != 'exc', start_labels=lambda l, y=other: l == y)
+            okf = bool(acc) and rej is None
+        ctx.ob(okf, u, 'a falsy predicate result rejects the target')
     # equality
     ok = len(eq.body) == 1 and isinstance(eq.body[0], ast.Raise)
     ctx.ob(ok, u, 'anything else is compared with ==: `%s` rejects' % norm(eq.test))
@@ -461,9 +478,20 @@ def regex_target_types(ctx):
         if tg is None:
             continue
         n += 1
-        for x in ast.walk(tg):
-            if isinstance(x, ast.Name) and x.id in ('str', 'bytes'):
-                have.add(x.id)
+        srcs = [tg]
+        # computed by a module-level helper: what the helper can put into the table
+        if isinstance(tg, ast.Call) and is_name(tg.func) and ('matching.' + tg.func.id) in p.units:
+            srcs.append(p.units['matching.' + tg.func.id].node)
+        for root in srcs:
+            for x in ast.walk(root):
+                if isinstance(x, ast.Name) and x.id in ('str', 'bytes'):
+                    have.add(x.id)
+                # ``for sample in ("", b""): .. type(sample)``: the types of the literal samples
+                if isinstance(x, ast.For) and isinstance(x.iter, (ast.Tuple, ast.List)) and is_name(x.target) \
+                        and all(isinstance(e, ast.Constant) for e in x.iter.elts) \
+                        and any(isinstance(c, ast.Call) and is_name(c.func, 'type') and c.args and is_name(c.args[0], x.target.id)
+                                for b in x.body for c in ast.walk(b)):
+                    have |= {type(e.value).__name__ for e in x.iter.elts if isinstance(e.value, (str, bytes))}
     ctx.require(n >= 1, 'matching._RE_TYPES: definition not found')
     u = ctx.unit('matching.Regex.glomit')
     uses = [x for x in u.own_nodes() if isinstance(x, ast.Compare) and any(is_name(c, '_RE_TYPES') for c in x.comparators)]
